@@ -30,18 +30,19 @@ type Act struct {
 }
 
 type Scenario struct {
-	ID      uint64 `json:"id"`
-	Kind    string `json:"kind"`
-	Family  string `json:"family"`
-	IdleUs  int64  `json:"idle_us"` // 0 = leave the package default (30 s)
-	MaxW    int    `json:"maxw"`
-	SnapUs  int64  `json:"snap_us"` // mean period of the background snapshot taker, 0 = none
-	Acts    []Act  `json:"acts"`
-	NFut    int    `json:"nfut"`
-	NG      int    `json:"ng"`
-	WindUp  bool   `json:"windup,omitempty"`  // measure wind-down to zero workers at the end
-	Restart bool   `json:"restart,omitempty"` // after wind-down schedule one more future and see it start
-	KF      string `json:"kf,omitempty"`
+	ID      uint64     `json:"id"`
+	Kind    string     `json:"kind"`
+	Family  string     `json:"family"`
+	IdleUs  int64      `json:"idle_us"` // 0 = leave the package default (30 s)
+	MaxW    int        `json:"maxw"`
+	SnapUs  int64      `json:"snap_us"` // mean period of the background snapshot taker, 0 = none
+	Acts    []Act      `json:"acts"`
+	NFut    int        `json:"nfut"`
+	NG      int        `json:"ng"`
+	WindUp  bool       `json:"windup,omitempty"`  // measure wind-down to zero workers at the end
+	Restart bool       `json:"restart,omitempty"` // after wind-down schedule one more future and see it start
+	KF      string     `json:"kf,omitempty"`
+	Rearm   *RearmSpec `json:"rearm,omitempty"` // kind "rearm": tight re-arm behind a distant future (rearm.go)
 }
 
 type Slot struct {
@@ -142,6 +143,18 @@ type runner struct {
 }
 
 func (r *runner) now() int64 { return int64(time.Since(r.base)) }
+
+// safeCancel cancels future i on behalf of the engine; a panic is an observation
+func (r *runner) safeCancel(i int) {
+	defer func() {
+		if x := recover(); x != nil {
+			r.mu.Lock()
+			r.panics = append(r.panics, fmt.Sprintf("engine, Cancel of the distant future %d: %v", i, x))
+			r.mu.Unlock()
+		}
+	}()
+	r.handles[i].Cancel()
+}
 
 func (r *runner) snap() {
 	t0 := r.now()
@@ -351,7 +364,7 @@ func Run(sc Scenario, seed uint64) Result {
 		r.mu.Unlock()
 		if far {
 			c0 := r.now()
-			r.handles[i].Cancel()
+			r.safeCancel(i)
 			c1 := r.now()
 			r.mu.Lock()
 			r.futs[i].Cancels = append(r.futs[i].Cancels, [2]int64{c0, c1})
